@@ -74,3 +74,16 @@ META["C19"] = {
              "stack exhaustion and blocking are observed rather than killing the check."),
     "note": "Hang detection uses a 12s silence threshold (normal cases take milliseconds) and requires a go-slug frame in the dump; otherwise inconclusive (exit 2).",
 }
+META["C06"] = {
+    "technique": "rapid PBT over a source-address grammar with mutation, String->Parse fixpoint and equality oracles; native fuzzing (thorough)",
+    "text": ("Accepted and derived address values of every kind are printed and parsed back (own-kind parser and general parsers): equal value, "
+             "same kind, idempotent print; equality coincides with equal print. One known finding (sub-paths containing '?' or '#') is excluded "
+             "at the oracle and replayed."),
+    "note": "Value equality is Go's == on the public types, which is what the bundle builder relies on for map keys.",
+}
+META["C07"] = {
+    "technique": "rapid PBT with must-accept / must-reject / if-accepted classes over all parsing routes and the constructor; independent policy predicate",
+    "text": ("Every route to a remote address (four parsers, the constructor, relative resolution) is fed grammar-valid, single-rule-violating and "
+             "mutated inputs; accepted values are judged by an independent transport-policy predicate over the public accessors."),
+    "note": "The predicate is harness code written from the property text.",
+}
